@@ -41,11 +41,24 @@ type StructDataProvider struct {
 }
 
 func (s *StructDataProvider) Get(key string) any {
-	field := s.value.FieldByName(key)
-	if !field.IsValid() {
+	field, ok := s.fieldByName(key)
+	if !ok {
 		return nil
 	}
 	return field.Interface()
+}
+
+// returns the field with the given name if it exists and its value may be read (i.e it is exported and not behind a nil embedded pointer)
+func (s *StructDataProvider) fieldByName(key string) (reflect.Value, bool) {
+	meta, ok := s.value.Type().FieldByName(key)
+	if !ok {
+		return reflect.Value{}, false
+	}
+	field, err := s.value.FieldByIndexErr(meta.Index)
+	if err != nil || !field.CanInterface() {
+		return reflect.Value{}, false
+	}
+	return field, true
 }
 
 func (s *StructDataProvider) GetByField(field reflect.StructField, fallback string) (any, string) {
@@ -54,8 +67,8 @@ func (s *StructDataProvider) GetByField(field reflect.StructField, fallback stri
 }
 
 func (s *StructDataProvider) GetNestedProvider(key string) DataProvider {
-	field := s.value.FieldByName(key)
-	if !field.IsValid() {
+	field, ok := s.fieldByName(key)
+	if !ok {
 		return nil
 	}
 	dataProvider, _ := TryNewAnyDataProvider(field.Interface())
